@@ -19,9 +19,10 @@ ERRNOS = {
 }
 
 # kinds of storage calls
-OPEN_R, OPEN_W, READ, WRITE, SEEK, CLOSE, LISTDIR, STAT, REMOVE, RENAME = (
-    "open-r", "open-w", "read", "write", "seek", "close", "listdir", "stat", "remove", "rename")
-WRITE_SIDE = (OPEN_W, WRITE, REMOVE, RENAME)
+OPEN_R, OPEN_W, READ, WRITE, SEEK, CLOSE, LISTDIR, STAT, REMOVE, RENAME, MKDIR, RMDIR = (
+    "open-r", "open-w", "read", "write", "seek", "close", "listdir", "stat", "remove", "rename",
+    "mkdir", "rmdir")
+WRITE_SIDE = (OPEN_W, WRITE, REMOVE, RENAME, MKDIR, RMDIR)
 
 
 class SimKill(BaseException):
@@ -242,6 +243,29 @@ class SimDisk:
         if p not in self.files:
             raise FileNotFoundError(_errno.ENOENT, "No such file or directory", path)
         del self.files[p]
+
+    def mkdir(self, path):
+        p = self.norm(path)
+        self.call(MKDIR, p)
+        if p in self.dirs or p in self.files:
+            raise FileExistsError(_errno.EEXIST, "File exists", path)
+        parent = posixpath.dirname(p)
+        if parent in self.files:
+            raise NotADirectoryError(_errno.ENOTDIR, "Not a directory", path)
+        if parent not in self.dirs:
+            raise FileNotFoundError(_errno.ENOENT, "No such file or directory", path)
+        self.dirs.add(p)
+
+    def rmdir(self, path):
+        p = self.norm(path)
+        self.call(RMDIR, p)
+        if p in self.files:
+            raise NotADirectoryError(_errno.ENOTDIR, "Not a directory", path)
+        if p not in self.dirs:
+            raise FileNotFoundError(_errno.ENOENT, "No such file or directory", path)
+        if self.children(p):
+            raise OSError(_errno.ENOTEMPTY, "Directory not empty", path)
+        self.dirs.discard(p)
 
     def rename(self, src, dst):
         a, b = self.norm(src, follow_last=False), self.norm(dst, follow_last=False)
